@@ -632,16 +632,28 @@ Definition cands_netlists (s : state) (fuel : nat) (roots : list item) : wres (l
 (* element[key] for string values (absent, or not a string: None) *)
 Definition key_of (s : state) (k : str) (e : id) : option str := get_str s e k.
 
-(* global_service.lookup(parent, <class>, key, value): the namespace manager's lookup when one is
-   registered for the key (it registers .NAME and EDIF.identifier), else the linear scan *)
+(* global_service.lookup(parent, <class>, key, value), a list: the namespace manager's lookup when one
+   is registered for the key (it registers .NAME and EDIF.identifier) and it does not answer
+   NotImplemented, else the linear scan.
+   NamespaceManager.lookup answers NotImplemented when the parent has no namespace, and passes on what
+   the namespace of the parent answers: DefaultNamespace.lookup indexes .NAME only (NotImplemented for
+   any other key), EdifNamespace.lookup never answers NotImplemented *)
 Definition registered_key (k : str) : bool := str_eqb k str_NAME || str_eqb k str_IDENT.
 
-Definition lk_of (s : state) (reg : bool) (k : str) (r : rel) (p : id) : str -> option id :=
-  if reg && registered_key k then fast_lookup s p (rel_child r) k
+Definition ns_indexes (t : nstable) (k : str) : bool :=
+  match ns_pol t with PolDefault => str_eqb k str_NAME | PolEdif => true end.
+
+Definition lk_of (s : state) (reg : bool) (k : str) (r : rel) (p : id) : str -> list id :=
+  if reg && registered_key k then
+    match nstab s p with
+    | Some t => if ns_indexes t k then fun v => opt_list (fast_lookup s p (rel_child r) k v)
+                else Filter.scan_lookup (key_of s k) (kids s r p)
+    | None => Filter.scan_lookup (key_of s k) (kids s r p)
+    end
   else Filter.scan_lookup (key_of s k) (kids s r p).
 
 Definition parents_of (s : state) (reg : bool) (k : str) (r : rel) (ps : list id)
-  : list ((str -> option id) * list id) :=
+  : list ((str -> list id) * list id) :=
   map (fun p => (lk_of s reg k r p, kids s r p)) ps.
 
 (* one query: reg = the fast lookups are registered; k = key; cb = the filter callback *)
@@ -656,11 +668,11 @@ Definition two_stage (s : state) (o : qopts) (nk : bool) (bk : bkind) (r : rel)
 Definition query_instances s o fuel roots rec inside pats :=
   two_stage s o true BFound RChildren (cands_instances s fuel roots rec inside) pats.
 Definition query_definitions s o fuel roots rec inside pats :=
-  two_stage s o false (BNames false) RDefs (cands_definitions s fuel roots rec inside) pats.
+  two_stage s o false BNames RDefs (cands_definitions s fuel roots rec inside) pats.
 Definition query_libraries s o fuel roots rec inside pats :=
   two_stage s o false BFound RLibs (cands_libraries s fuel roots rec inside) pats.
 Definition query_ports s o fuel roots pats :=
-  two_stage s o false (BNames true) RPorts (cands_ports s fuel roots) pats.
+  two_stage s o false BNames RPorts (cands_ports s fuel roots) pats.
 Definition query_netlists (s : state) (o : qopts) fuel roots pats : wres (list id) :=
   wmap (fun objs => filter (q_cb o) (run_netlists (q_case o) (q_re o) (key_of s (q_key o)) objs pats))
        (cands_netlists s fuel roots).
@@ -672,7 +684,7 @@ Definition query_pins (s : state) (cb : pin -> bool) fuel roots (inside : bool) 
 Definition cands_cables (s : state) (fuel : nat) (roots : list item) (rec : bool) (x : sel) :=
   wmap (split_outs true) (wl_run (acts_cables s rec x) (bad_cables s x) fuel roots).
 Definition query_cables s o fuel roots rec x pats :=
-  two_stage s o false (BNames true) RCables (cands_cables s fuel roots rec x) pats.
+  two_stage s o false BNames RCables (cands_cables s fuel roots rec x) pats.
 
 Definition query_wires (s : state) (cb : id -> bool) fuel roots (rec : bool) (x : sel) : wres (list id) :=
   match wl_run (acts_wires s rec x) (bad_wires s x) fuel roots with
